@@ -243,6 +243,24 @@ def parse_targets(M, mod):
         for n in ast.walk(fn.node):
             if isinstance(n, ast.Call) and isinstance(n.func, ast.Attribute) and n.func.attr == "parse" and isinstance(n.func.value, ast.Name):
                 tgt = n.func.value.id
+        if tgt is None:
+            # the grammar handed to a shared helper that parses with its parameter: helper(GRAMMAR, normaliser, data) where the helper's body calls <that parameter>.parse(...)
+            for n in ast.walk(fn.node):
+                if not (isinstance(n, ast.Call) and n.args):
+                    continue
+                callee = None
+                if isinstance(n.func, ast.Name):
+                    callee = M.funcs.get(f"{mod}.{n.func.id}")
+                elif isinstance(n.func, ast.Attribute) and isinstance(n.func.value, ast.Name):
+                    imp = M.imports.get(mod, {}).get(n.func.value.id)
+                    callee = M.funcs.get(f"{imp[1]}.{n.func.attr}") if imp and imp[0] == "module" else None
+                if callee is None:
+                    continue
+                params = [a.arg for a in callee.node.args.args]
+                parsed_params = {x.func.value.id for x in ast.walk(callee.node) if isinstance(x, ast.Call) and isinstance(x.func, ast.Attribute) and x.func.attr == "parse" and isinstance(x.func.value, ast.Name)}
+                for i_, a_ in enumerate(n.args):
+                    if isinstance(a_, ast.Name) and i_ < len(params) and params[i_] in parsed_params:
+                        tgt = a_.id
         res[fname] = tgt
     return res
 
